@@ -337,6 +337,16 @@ TIES = {
             "result or same error kind with the same partial effects, mostly with no well-formedness guard",
             "node slots as heap cells with fresh allocation, weak references as ids, the lookup table as the model's "
             "association list keyed by the lowered item, _strI equality as equality of lowered text"),
+    "C10": ("Props/C10Tie.v", 31, "the ordering methods of both paragraph classes of _deb822_repro/parsing.py at POINTER LEVEL "
+            "(on top of C09's regenerated OrderedSet/LinkedList, not re-translated): order_first/last/before/after, "
+            "sort_fields, remove_kvpair_element, _ensure_final_newline, iter_keys, kvpair_count, "
+            "contains_kvpair_element of Deb822NoDuplicateFieldsParagraphElement; the same plus _nodes_being_relocated, "
+            "_resolve_to_single_node, _regenerate_relative_kvapir_order, _init_kvpair_fields of "
+            "Deb822DuplicateFieldsParagraphElement; Deb822FileElement.append and insert — as REFINEMENT theorems: from any "
+            "state representing the model's list-level value, the regenerated method ends (normally or by raising, same "
+            "error kind) in a state representing the model function's result; every list is representable",
+            "_unpack_key, field_name, add_final_newline_if_missing, sorted/key functions as the model's, reversed(), "
+            "item observations (source hashes of all of them asserted); set_kvpair_element is not regenerated"),
     "C12": ("Props/C12Tie.v", 18, "_multivalued.get_as_string (the writer), PdiffIndex/Release._fixed_field_lengths and "
             "_get_size_field_length, Release.set_size_field_behavior, _multivalued.__init__ (the reader, on every mapping), "
             "validate_input, is_multi_line and the inherited __setitem__ — for every one of the five classes' tables "
@@ -375,6 +385,14 @@ TIE_NOTE = ("  The translator harness/py2coq.py (rendering of the Python subset,
 
 
 # properties whose anchored functions are tied in another property's tie file
+TIES["C20"] = ("Props/C20Tie.v", 55, "the debtags module: parse_tags, read_tag_database(_reversed/_both_ways), reverse, output; "
+               "DB.__init__/read/insert (with the known finding K1 reproduced as written)/reverse/copy/reverse_copy, all "
+               "queries and iterators, choose_packages(_copy), the six filters, facet_collection — sets as the model's "
+               "canonical sets, dicts as insertion-ordered association lists, shared set/dict objects as references into "
+               "the model's heap (equal heaps afterwards); each method is exactly the model's hstep case; the guards are "
+               "proved reachable for every state of every history; order independence of the set loops proved for every "
+               "permutation where it holds (the loops it is only argued for are named in the Props comment)",
+               "the two regex leaves, split(', '), the set/dict/heap primitives of the model, callbacks assumed pure")
 TIES["C08"] = ("Props/C02Tie.v", 17, "the functions C08 is about — Deb822.validate_input, __setitem__, the reader "
                "(_skip_useless_lines, split_gpg_and_payload, _internal_parser) and the writer (_dump_format, _dump_str) — "
                "shared with C02", "as for C02")
